@@ -416,22 +416,69 @@ func c01BracketRegions(c *Ctx) {
 		return cal != nil && cal.Signature.Recv() != nil && isNamed(cal.Signature.Recv().Type(), hclsyntaxPath, "parser") &&
 			(strings.HasPrefix(cal.Name(), "parse") || strings.HasPrefix(cal.Name(), "Parse") || strings.HasPrefix(cal.Name(), "finishParsing"))
 	}
-	inspectsCloser := func(ins ssa.Instruction) bool {
+	// closerValue: a TokenType value that can only be a closing delimiter (constant, or phi of such)
+	var closerValue func(v ssa.Value, d int) bool
+	closerValue = func(v ssa.Value, d int) bool {
+		if d > 4 || !isNamed(v.Type(), hclsyntaxPath, "TokenType") {
+			return false
+		}
+		if n, ok := constInt(v); ok {
+			return closers[n]
+		}
+		if phi, ok := v.(*ssa.Phi); ok {
+			for _, e := range phi.Edges {
+				if !closerValue(e, d+1) {
+					return false
+				}
+			}
+			return len(phi.Edges) > 0
+		}
+		return false
+	}
+	// consumesCloser: parser methods every normal return of which has looked at a closing
+	// delimiter (they parse "the rest of" a bracketed construct and own its closer)
+	consumesCloser := map[*ssa.Function]bool{}
+	var inspectsCloser func(ins ssa.Instruction) bool
+	inspectsCloser = func(ins ssa.Instruction) bool {
 		switch x := ins.(type) {
 		case *ssa.Call:
-			if cal := x.Call.StaticCallee(); cal != nil && (cal.Name() == "recover" || cal.Name() == "recoverOver" || cal.Name() == "recoverAfterBodyItem") {
+			cal := staticCallee(&x.Call)
+			if cal != nil && (cal.Name() == "recover" || cal.Name() == "recoverOver" || cal.Name() == "recoverAfterBodyItem") {
+				return true
+			}
+			if cal != nil && consumesCloser[cal] {
 				return true
 			}
 		case *ssa.BinOp:
 			if x.Op == token.EQL || x.Op == token.NEQ {
 				for _, v := range []ssa.Value{x.X, x.Y} {
-					if n, ok := constInt(v); ok && closers[n] && isNamed(v.Type(), hclsyntaxPath, "TokenType") {
+					if closerValue(v, 0) {
 						return true
 					}
 				}
 			}
 		}
 		return false
+	}
+	for changed := true; changed; {
+		changed = false
+		for _, fn := range c.P.pkgFuncs("hclsyntax") {
+			if consumesCloser[fn] || len(fn.Blocks) == 0 {
+				continue
+			}
+			top := fn
+			for top.Parent() != nil {
+				top = top.Parent()
+			}
+			if top.Signature.Recv() == nil || !isNamed(top.Signature.Recv().Type(), hclsyntaxPath, "parser") {
+				continue
+			}
+			if _, escapes := reachesReturnAvoiding(fn.Blocks[0], 0, inspectsCloser, nil); !escapes {
+				// panics are not returns: reachesReturnAvoiding only stops at Return instructions
+				consumesCloser[fn] = true
+				changed = true
+			}
+		}
 	}
 	n := 0
 	for _, fn := range c.P.pkgFuncs("hclsyntax") {
@@ -515,7 +562,7 @@ func c01BracketRegions(c *Ctx) {
 			}
 		}
 	}
-	c.Floor("region.closer regions", n, 6, "index brackets, parentheses, function call, template interpolation and control sequences, public entry points")
+	c.Floor("region.closer regions", n, 4, "index brackets, parentheses, function call, template interpolation and control sequences, public entry points")
 	_ = types.Typ
 }
 
